@@ -151,7 +151,7 @@ func applySites(r *Report) map[ssa.Instruction][]LSite {
 // are reported under the separate rule id exemptRule (used by C10, which leaves index back-fill
 // to C18).
 func ruleL1(r *Report, exempt map[string]bool) {
-	h := r.Rule("L1", "L", "every call that applies operations to a registered column (`(*column).Apply`, or `Column.Apply` outside the wrapper) holds the block's exclusive latch on every call path", 3)
+	h := r.Rule("L1", "L", "every call that applies operations to a registered column (`(*column).Apply`, or `Column.Apply` outside the wrapper) holds the block's exclusive latch on every call path", 2)
 	type at struct {
 		ins ssa.Instruction
 		s   *LSite
@@ -165,7 +165,11 @@ func ruleL1(r *Report, exempt map[string]bool) {
 		}
 	}
 	for _, n := range sortedKeys(by) {
-		if exempt[fnName(topFn(by[n][0].ins.Parent()))] {
+		owner := n
+		if i := strings.Index(owner, "$"); i > 0 {
+			owner = owner[:i]
+		}
+		if exempt[fnName(topFn(by[n][0].ins.Parent()))] || exempt[owner] {
 			continue
 		}
 		sort.Slice(by[n], func(i, j int) bool { return by[n][i].ins.Pos() < by[n][j].ins.Pos() })
